@@ -1,0 +1,227 @@
+//go:build verif
+
+// Contracts for package output, checked by /verif (govc). Comment-only file.
+package output
+
+// ---- which arguments belong to a service (constructor arguments, call arguments, field values)
+
+//@ spec isArgOf(s Service, a Arg) bool =
+//@      (exists j int :: 0 <= j && j < len(s.Args) && s.Args[j] == a)
+//@   || (exists c int, j int :: 0 <= c && c < len(s.Calls) && 0 <= j && j < len(s.Calls[c].Args) && s.Calls[c].Args[j] == a)
+//@   || (exists f int :: 0 <= f && f < len(s.Fields) && s.Fields[f].Value == a)
+
+//@ spec isArgOfUpTo(s Service, a Arg, nc int, nf int) bool =
+//@      (exists j int :: 0 <= j && j < len(s.Args) && s.Args[j] == a)
+//@   || (exists c int, j int :: 0 <= c && c < nc && 0 <= j && j < len(s.Calls[c].Args) && s.Calls[c].Args[j] == a)
+//@   || (exists f int :: 0 <= f && f < nf && s.Fields[f].Value == a)
+
+// callOff(s, c) is the position in AllArgs() of the first argument of call c (definitional axioms:
+// a well-founded recursion over c, hence a conservative extension).
+//@ spec callOff(s Service, c int) int
+//@ axiom [callOff_base] forall s Service :: callOff(s, 0) == len(s.Args)
+//@ axiom [callOff_step] forall s Service, c int :: 0 <= c && c < len(s.Calls) ==> callOff(s, c + 1) == callOff(s, c) + len(s.Calls[c].Args)
+//@ axiom [callOff_mono] forall s Service, c int :: 0 <= c && c <= len(s.Calls) ==> callOff(s, c) >= len(s.Args)
+
+//@ func (Service).AllArgs pure
+//@   property C06 C07 C05
+//@   ensures [sound @sound] forall q int :: 0 <= q && q < len(result) ==> isArgOf(s, result[q])
+//@   ensures [len @pos] len(result) == callOff(s, len(s.Calls)) + len(s.Fields)
+//@   ensures [complete_args @pos] forall j int :: 0 <= j && j < len(s.Args) ==> result[j] == s.Args[j]
+//@   ensures [complete_calls @pos] forall c int, j int :: 0 <= c && c < len(s.Calls) && 0 <= j && j < len(s.Calls[c].Args) ==>
+//@             callOff(s, c) + j < callOff(s, len(s.Calls)) && result[callOff(s, c) + j] == s.Calls[c].Args[j]
+//@   ensures [complete_fields @pos] forall f int :: 0 <= f && f < len(s.Fields) ==> result[callOff(s, len(s.Calls)) + f] == s.Fields[f].Value
+//@   loop 1
+//@     invariant [sound @sound] forall q int :: 0 <= q && q < len(res) ==> isArgOfUpTo(s, res[q], $i, 0)
+//@     invariant [len @pos] len(res) == callOff(s, $i)
+//@     invariant [args @pos] forall j int :: 0 <= j && j < len(s.Args) ==> res[j] == s.Args[j]
+//@     invariant [calls @pos] forall c int, j int :: 0 <= c && c < $i && 0 <= j && j < len(s.Calls[c].Args) ==>
+//@             callOff(s, c) + j < callOff(s, $i) && res[callOff(s, c) + j] == s.Calls[c].Args[j]
+//@   loop 2
+//@     invariant [sound @sound] forall q int :: 0 <= q && q < len(res) ==> isArgOfUpTo(s, res[q], len(s.Calls), $i)
+//@     invariant [len @pos] len(res) == callOff(s, len(s.Calls)) + $i
+//@     invariant [args @pos] forall j int :: 0 <= j && j < len(s.Args) ==> res[j] == s.Args[j]
+//@     invariant [calls @pos] forall c int, j int :: 0 <= c && c < len(s.Calls) && 0 <= j && j < len(s.Calls[c].Args) ==>
+//@             callOff(s, c) + j < callOff(s, len(s.Calls)) && res[callOff(s, c) + j] == s.Calls[c].Args[j]
+//@     invariant [fields @pos] forall f int :: 0 <= f && f < $i ==> res[callOff(s, len(s.Calls)) + f] == s.Fields[f].Value
+
+// ---- existence of referenced parameters and services (C06)
+//
+// "Declared" looks at names only, so todo parameters and todo services count as declared (C15).
+// The set of declared names is defined by the obvious recursion over the declaration list
+// (definitional axioms): names(o, 0) = {} and names(o, k+1) = names(o, k) + {name of entry k}.
+
+//@ spec paramNames(o Output, k int) strset
+//@ axiom [paramNames_0] forall o Output :: paramNames(o, 0) == emptyset()
+//@ axiom [paramNames_step] forall o Output, k int :: 0 <= k && k < len(o.Params) ==> paramNames(o, k + 1) == add(paramNames(o, k), o.Params[k].Name)
+//@ spec declaredParams(o Output) strset = paramNames(o, len(o.Params))
+
+//@ spec serviceNames(o Output, k int) strset
+//@ axiom [serviceNames_0] forall o Output :: serviceNames(o, 0) == emptyset()
+//@ axiom [serviceNames_step] forall o Output, k int :: 0 <= k && k < len(o.Services) ==> serviceNames(o, k + 1) == add(serviceNames(o, k), o.Services[k].Name)
+//@ spec declaredServices(o Output) strset = serviceNames(o, len(o.Services))
+
+//@ spec namesIn(xs []string, set strset) bool =
+//@   forall m int :: 0 <= m && m < len(xs) ==> xs[m] in set
+
+// every %param% written in a service: constructor arguments, call arguments, field values
+//@ spec svcParamsIn(s Service, set strset) bool =
+//@      (forall j int :: 0 <= j && j < len(s.Args) ==> namesIn(s.Args[j].DependsOnParams, set))
+//@   && (forall c int, j int :: 0 <= c && c < len(s.Calls) && 0 <= j && j < len(s.Calls[c].Args) ==> namesIn(s.Calls[c].Args[j].DependsOnParams, set))
+//@   && (forall f int :: 0 <= f && f < len(s.Fields) ==> namesIn(s.Fields[f].Value.DependsOnParams, set))
+
+// every @service written in a service
+//@ spec svcServicesIn(s Service, set strset) bool =
+//@      (forall j int :: 0 <= j && j < len(s.Args) ==> namesIn(s.Args[j].DependsOnServices, set))
+//@   && (forall c int, j int :: 0 <= c && c < len(s.Calls) && 0 <= j && j < len(s.Calls[c].Args) ==> namesIn(s.Calls[c].Args[j].DependsOnServices, set))
+//@   && (forall f int :: 0 <= f && f < len(s.Fields) ==> namesIn(s.Fields[f].Value.DependsOnServices, set))
+
+//@ spec decParamsIn(d Decorator, set strset) bool =
+//@   forall j int :: 0 <= j && j < len(d.Args) ==> namesIn(d.Args[j].DependsOnParams, set)
+//@ spec decServicesIn(d Decorator, set strset) bool =
+//@   forall j int :: 0 <= j && j < len(d.Args) ==> namesIn(d.Args[j].DependsOnServices, set)
+
+//@ func validateParamsExistsInParams
+//@   property C06
+//@   requires existing != nil
+//@   ensures [nonnil_elems] forall j int :: 0 <= j && j < len(result) ==> result[j] != nil
+//@   ensures [ok_if_empty @a] len(result) == 0 ==> (forall j int :: 0 <= j && j < len(params) ==> namesIn(params[j].DependsOn, dom(existing)))
+//@   ensures [empty_if_ok @b] (forall j int :: 0 <= j && j < len(params) ==> namesIn(params[j].DependsOn, dom(existing))) ==> len(result) == 0
+//@   loop 1
+//@     invariant [nonnil] forall j int :: 0 <= j && j < len(errs) ==> errs[j] != nil
+//@     invariant [a @a] len(errs) == 0 ==> (forall j int :: 0 <= j && j < $i ==> namesIn(params[j].DependsOn, dom(existing)))
+//@     invariant [b @b] (forall j int :: 0 <= j && j < $i ==> namesIn(params[j].DependsOn, dom(existing))) ==> len(errs) == 0
+//@   loop 2
+//@     invariant [nonnil] forall j int :: 0 <= j && j < len(errs) ==> errs[j] != nil
+//@     invariant [a @a] len(errs) == 0 ==> (forall j int :: 0 <= j && j < $i1 ==> namesIn(params[j].DependsOn, dom(existing)))
+//@                                    && (forall m int :: 0 <= m && m < $i ==> p.DependsOn[m] in dom(existing))
+//@     invariant [b @b] (forall j int :: 0 <= j && j < $i1 ==> namesIn(params[j].DependsOn, dom(existing)))
+//@                    && (forall m int :: 0 <= m && m < $i ==> p.DependsOn[m] in dom(existing)) ==> len(errs) == 0
+
+//@ func validateParamsExistsInServices
+//@   property C06
+//@   requires existing != nil
+//@   ensures [nonnil_elems] forall j int :: 0 <= j && j < len(result) ==> result[j] != nil
+//@   ensures [ok_if_empty @a] len(result) == 0 ==> (forall j int :: 0 <= j && j < len(services) ==> svcParamsIn(services[j], dom(existing)))
+//@   ensures [empty_if_ok @b] (forall j int :: 0 <= j && j < len(services) ==> svcParamsIn(services[j], dom(existing))) ==> len(result) == 0
+//@   loop 1
+//@     invariant [nonnil] forall j int :: 0 <= j && j < len(errs) ==> errs[j] != nil
+//@     invariant [a @a] len(errs) == 0 ==> (forall j int :: 0 <= j && j < $i ==> svcParamsIn(services[j], dom(existing)))
+//@     invariant [b @b] (forall j int :: 0 <= j && j < $i ==> svcParamsIn(services[j], dom(existing))) ==> len(errs) == 0
+//@   loop 2
+//@     invariant [nonnil] forall j int :: 0 <= j && j < len(errs) ==> errs[j] != nil
+//@     invariant [a @a] len(errs) == 0 ==> (forall j int :: 0 <= j && j < $i1 ==> svcParamsIn(services[j], dom(existing)))
+//@                                    && (forall q int :: 0 <= q && q < $i ==> namesIn(s.AllArgs()[q].DependsOnParams, dom(existing)))
+//@     invariant [b @b] (forall j int :: 0 <= j && j < $i1 ==> svcParamsIn(services[j], dom(existing)))
+//@                    && (forall q int :: 0 <= q && q < $i ==> namesIn(s.AllArgs()[q].DependsOnParams, dom(existing))) ==> len(errs) == 0
+//@   loop 3
+//@     invariant [nonnil] forall j int :: 0 <= j && j < len(errs) ==> errs[j] != nil
+//@     invariant [a @a] len(errs) == 0 ==> (forall j int :: 0 <= j && j < $i1 ==> svcParamsIn(services[j], dom(existing)))
+//@                                    && (forall q int :: 0 <= q && q < $i2 ==> namesIn(s.AllArgs()[q].DependsOnParams, dom(existing)))
+//@                                    && (forall m int :: 0 <= m && m < $i ==> a.DependsOnParams[m] in dom(existing))
+//@     invariant [b @b] (forall j int :: 0 <= j && j < $i1 ==> svcParamsIn(services[j], dom(existing)))
+//@                    && (forall q int :: 0 <= q && q < $i2 ==> namesIn(s.AllArgs()[q].DependsOnParams, dom(existing)))
+//@                    && (forall m int :: 0 <= m && m < $i ==> a.DependsOnParams[m] in dom(existing)) ==> len(errs) == 0
+
+// C06, parameters: accepted iff every %param% referenced from a parameter, a service (arguments, calls,
+// fields) or a decorator names a declared parameter.
+//@ func ValidateParamsExist
+//@   property C06 C15 C16
+//@   ensures [accept_sound_params @a] result == nil ==> (forall j int :: 0 <= j && j < len(o.Params) ==> namesIn(o.Params[j].DependsOn, declaredParams(o)))
+//@   ensures [accept_sound_services @a] result == nil ==> (forall j int :: 0 <= j && j < len(o.Services) ==> svcParamsIn(o.Services[j], declaredParams(o)))
+//@   ensures [accept_sound_decorators @a] result == nil ==> (forall d int :: 0 <= d && d < len(o.Decorators) ==> decParamsIn(o.Decorators[d], declaredParams(o)))
+//@   ensures [accept_complete @b]
+//@        (forall j int :: 0 <= j && j < len(o.Params) ==> namesIn(o.Params[j].DependsOn, declaredParams(o)))
+//@     && (forall j int :: 0 <= j && j < len(o.Services) ==> svcParamsIn(o.Services[j], declaredParams(o)))
+//@     && (forall d int :: 0 <= d && d < len(o.Decorators) ==> decParamsIn(o.Decorators[d], declaredParams(o)))
+//@     ==> result == nil
+//@   loop 1
+//@     invariant [nonnil] existing != nil
+//@     invariant [set] dom(existing) == paramNames(o, $i)
+
+//@ func validateServicesExistsInServices
+//@   property C06
+//@   requires existing != nil
+//@   ensures [nonnil_elems] forall j int :: 0 <= j && j < len(result) ==> result[j] != nil
+//@   ensures [ok_if_empty @a] len(result) == 0 ==> (forall j int :: 0 <= j && j < len(services) ==> svcServicesIn(services[j], dom(existing)))
+//@   ensures [empty_if_ok @b] (forall j int :: 0 <= j && j < len(services) ==> svcServicesIn(services[j], dom(existing))) ==> len(result) == 0
+//@   loop 1
+//@     invariant [nonnil] forall j int :: 0 <= j && j < len(errs) ==> errs[j] != nil
+//@     invariant [a @a] len(errs) == 0 ==> (forall j int :: 0 <= j && j < $i ==> svcServicesIn(services[j], dom(existing)))
+//@     invariant [b @b] (forall j int :: 0 <= j && j < $i ==> svcServicesIn(services[j], dom(existing))) ==> len(errs) == 0
+//@   loop 2
+//@     invariant [nonnil] forall j int :: 0 <= j && j < len(errs) ==> errs[j] != nil
+//@     invariant [a @a] len(errs) == 0 ==> (forall j int :: 0 <= j && j < $i1 ==> svcServicesIn(services[j], dom(existing)))
+//@                                    && (forall q int :: 0 <= q && q < $i ==> namesIn(s.AllArgs()[q].DependsOnServices, dom(existing)))
+//@     invariant [b @b] (forall j int :: 0 <= j && j < $i1 ==> svcServicesIn(services[j], dom(existing)))
+//@                    && (forall q int :: 0 <= q && q < $i ==> namesIn(s.AllArgs()[q].DependsOnServices, dom(existing))) ==> len(errs) == 0
+//@   loop 3
+//@     invariant [nonnil] forall j int :: 0 <= j && j < len(errs) ==> errs[j] != nil
+//@     invariant [a @a] len(errs) == 0 ==> (forall j int :: 0 <= j && j < $i1 ==> svcServicesIn(services[j], dom(existing)))
+//@                                    && (forall q int :: 0 <= q && q < $i2 ==> namesIn(s.AllArgs()[q].DependsOnServices, dom(existing)))
+//@                                    && (forall m int :: 0 <= m && m < $i ==> a.DependsOnServices[m] in dom(existing))
+//@     invariant [b @b] (forall j int :: 0 <= j && j < $i1 ==> svcServicesIn(services[j], dom(existing)))
+//@                    && (forall q int :: 0 <= q && q < $i2 ==> namesIn(s.AllArgs()[q].DependsOnServices, dom(existing)))
+//@                    && (forall m int :: 0 <= m && m < $i ==> a.DependsOnServices[m] in dom(existing)) ==> len(errs) == 0
+
+//@ func validateServicesExistsInDecorators
+//@   property C06
+//@   requires existing != nil
+//@   ensures [nonnil_elems] forall j int :: 0 <= j && j < len(result) ==> result[j] != nil
+//@   ensures [ok_if_empty @a] len(result) == 0 ==> (forall j int :: 0 <= j && j < len(decorators) ==> decServicesIn(decorators[j], dom(existing)))
+//@   ensures [empty_if_ok @b] (forall j int :: 0 <= j && j < len(decorators) ==> decServicesIn(decorators[j], dom(existing))) ==> len(result) == 0
+//@   loop 1
+//@     invariant [nonnil] forall j int :: 0 <= j && j < len(errs) ==> errs[j] != nil
+//@     invariant [a @a] len(errs) == 0 ==> (forall j int :: 0 <= j && j < $i ==> decServicesIn(decorators[j], dom(existing)))
+//@     invariant [b @b] (forall j int :: 0 <= j && j < $i ==> decServicesIn(decorators[j], dom(existing))) ==> len(errs) == 0
+//@   loop 2
+//@     invariant [nonnil] forall j int :: 0 <= j && j < len(errs) ==> errs[j] != nil
+//@     invariant [a @a] len(errs) == 0 ==> (forall j int :: 0 <= j && j < $i1 ==> decServicesIn(decorators[j], dom(existing)))
+//@                                    && (forall q int :: 0 <= q && q < $i ==> namesIn(d.Args[q].DependsOnServices, dom(existing)))
+//@     invariant [b @b] (forall j int :: 0 <= j && j < $i1 ==> decServicesIn(decorators[j], dom(existing)))
+//@                    && (forall q int :: 0 <= q && q < $i ==> namesIn(d.Args[q].DependsOnServices, dom(existing))) ==> len(errs) == 0
+//@   loop 3
+//@     invariant [nonnil] forall j int :: 0 <= j && j < len(errs) ==> errs[j] != nil
+//@     invariant [a @a] len(errs) == 0 ==> (forall j int :: 0 <= j && j < $i1 ==> decServicesIn(decorators[j], dom(existing)))
+//@                                    && (forall q int :: 0 <= q && q < $i2 ==> namesIn(d.Args[q].DependsOnServices, dom(existing)))
+//@                                    && (forall m int :: 0 <= m && m < $i ==> a.DependsOnServices[m] in dom(existing))
+//@     invariant [b @b] (forall j int :: 0 <= j && j < $i1 ==> decServicesIn(decorators[j], dom(existing)))
+//@                    && (forall q int :: 0 <= q && q < $i2 ==> namesIn(d.Args[q].DependsOnServices, dom(existing)))
+//@                    && (forall m int :: 0 <= m && m < $i ==> a.DependsOnServices[m] in dom(existing)) ==> len(errs) == 0
+
+// C06, services: accepted iff every @service referenced from a service or a decorator names a declared service.
+//@ func ValidateServicesExist
+//@   property C06 C15 C16
+//@   ensures [accept_sound_services @a] result == nil ==> (forall j int :: 0 <= j && j < len(o.Services) ==> svcServicesIn(o.Services[j], declaredServices(o)))
+//@   ensures [accept_sound_decorators @a] result == nil ==> (forall d int :: 0 <= d && d < len(o.Decorators) ==> decServicesIn(o.Decorators[d], declaredServices(o)))
+//@   ensures [accept_complete @b]
+//@        (forall j int :: 0 <= j && j < len(o.Services) ==> svcServicesIn(o.Services[j], declaredServices(o)))
+//@     && (forall d int :: 0 <= d && d < len(o.Decorators) ==> decServicesIn(o.Decorators[d], declaredServices(o)))
+//@     ==> result == nil
+//@   loop 1
+//@     invariant [nonnil] existing != nil
+//@     invariant [set] dom(existing) == serviceNames(o, $i)
+
+//@ func validateParamsExistsInDecorators
+//@   property C06
+//@   requires existing != nil
+//@   ensures [nonnil_elems] forall j int :: 0 <= j && j < len(result) ==> result[j] != nil
+//@   ensures [ok_if_empty @a] len(result) == 0 ==> (forall j int :: 0 <= j && j < len(decorators) ==> decParamsIn(decorators[j], dom(existing)))
+//@   ensures [empty_if_ok @b] (forall j int :: 0 <= j && j < len(decorators) ==> decParamsIn(decorators[j], dom(existing))) ==> len(result) == 0
+//@   loop 1
+//@     invariant [nonnil] forall j int :: 0 <= j && j < len(errs) ==> errs[j] != nil
+//@     invariant [a @a] len(errs) == 0 ==> (forall j int :: 0 <= j && j < $i ==> decParamsIn(decorators[j], dom(existing)))
+//@     invariant [b @b] (forall j int :: 0 <= j && j < $i ==> decParamsIn(decorators[j], dom(existing))) ==> len(errs) == 0
+//@   loop 2
+//@     invariant [nonnil] forall j int :: 0 <= j && j < len(errs) ==> errs[j] != nil
+//@     invariant [a @a] len(errs) == 0 ==> (forall j int :: 0 <= j && j < $i1 ==> decParamsIn(decorators[j], dom(existing)))
+//@                                    && (forall q int :: 0 <= q && q < $i ==> namesIn(d.Args[q].DependsOnParams, dom(existing)))
+//@     invariant [b @b] (forall j int :: 0 <= j && j < $i1 ==> decParamsIn(decorators[j], dom(existing)))
+//@                    && (forall q int :: 0 <= q && q < $i ==> namesIn(d.Args[q].DependsOnParams, dom(existing))) ==> len(errs) == 0
+//@   loop 3
+//@     invariant [nonnil] forall j int :: 0 <= j && j < len(errs) ==> errs[j] != nil
+//@     invariant [a @a] len(errs) == 0 ==> (forall j int :: 0 <= j && j < $i1 ==> decParamsIn(decorators[j], dom(existing)))
+//@                                    && (forall q int :: 0 <= q && q < $i2 ==> namesIn(d.Args[q].DependsOnParams, dom(existing)))
+//@                                    && (forall m int :: 0 <= m && m < $i ==> a.DependsOnParams[m] in dom(existing))
+//@     invariant [b @b] (forall j int :: 0 <= j && j < $i1 ==> decParamsIn(decorators[j], dom(existing)))
+//@                    && (forall q int :: 0 <= q && q < $i2 ==> namesIn(d.Args[q].DependsOnParams, dom(existing)))
+//@                    && (forall m int :: 0 <= m && m < $i ==> a.DependsOnParams[m] in dom(existing)) ==> len(errs) == 0
